@@ -888,3 +888,27 @@ Qed.
 
 Lemma C15_total_flux_lemma : forall c, H15 c = true -> c_be c = Flux -> run_model c <> OExc Internal.
 Proof. intros c H BE X. pose proof (flux_holds c H BE) as Hh. rewrite X in Hh. discriminate Hh. Qed.
+
+(** * all back-ends *)
+Lemma C15_total_all : forall c, H15 c = true ->
+  (schedulable (c_step c) = true ->
+     K6_batch_gpus c = false /\ K6_lsf_header c = false /\ K6_lsf_nodes_only c = false) ->
+  run_model c <> OExc Internal.
+Proof.
+  intros c H K. destruct (c_be c) eqn:BE.
+  - apply C15_total_lemma; auto. left. split; auto. intros SC. apply K; auto.
+  - apply C15_total_lsf_lemma; auto. intros SC. destruct (K SC) as [_ [A B]]. auto.
+  - apply C15_total_flux_lemma; auto.
+  - apply C15_total_lemma; auto.
+Qed.
+
+Lemma C15_ok_all : forall c,
+  K6_batch_gpus c = false -> K6_lsf_header c = false -> K6_lsf_nodes_only c = false ->
+  C15_ok c (run_model c) = true.
+Proof.
+  intros c A B C. destruct (c_be c) eqn:BE.
+  - apply C15_ok_slurm; auto.
+  - apply C15_ok_lsf; auto.
+  - apply C15_ok_flux; auto.
+  - apply C15_ok_local; auto.
+Qed.
